@@ -9,6 +9,7 @@ import WacProofs.Lemmas.GraphInvRemove2
 import WacProofs.Lemmas.GraphInvUnreg4
 import WacProofs.Lemmas.GraphNoPanic2
 import WacProofs.Lemmas.GraphQueries
+import WacProofs.Lemmas.GraphNoPanic4
 /-
   C06 — the graph API stays consistent over every operation history.
 
@@ -247,6 +248,19 @@ theorem no_panic_live_partial (ctx : Ctx) (g : Graph) (op : Op) (h : Inv ctx g) 
 -- non-vacuity: live identifiers in a non-trivial state
 example : LiveIds (run ctxW {} [.register pkgW, .instantiate ⟨0, 0⟩, .instantiate ⟨0, 0⟩, .alias 0 ['a']]).1
     (.setArg 1 ['a'] 2) = true := by decide
+
+/-- C06, no panic: on a consistent graph no call whose identifiers are live panics — including
+    `remove_node`, whose recursive cascade terminates: along alias and dependency edges a rank
+    (`Node.key`) strictly decreases, given that export kinds are smaller than the instance kind
+    (`KindWF`, kinds are finite trees) and that dependency edges go from a type to a type built
+    from it (`DepOrder`) -/
+theorem no_panic_live (ctx : Ctx) (g : Graph) (op : Op) (h : Inv ctx g) (hw : KindWF ctx) (hd : DepOrder g)
+    (hl : LiveIds g op = true) : (step ctx g op).2.isPanic = false := by
+  cases op with
+  | removeNode n =>
+    unfold step stepWith
+    exact noPanic_removeNode h hw hd (by simpa [LiveIds] using hl)
+  | _ => exact no_panic_live_partial ctx g _ h hl rfl
 
 /-! ### every query reflects exactly the surviving items -/
 
